@@ -259,7 +259,8 @@ def r4_index_guards(ctx):
         pm = astx.parents(q.node)
         raises = [r for r in astx.raises_in(q.node) if astx.raise_type(r) == "IndexError"]
         if raises:
-            N = Normalizer(q.node, inline=False, int_atoms=int_all, rename=lambda e: "rn" if astx.is_name(e, "round_number") else None)
+            # (a single-assignment temporary such as n = len(self.election_states) is read through)
+            N = Normalizer(q.node, inline=True, int_atoms=int_all, rename=lambda e: "rn" if astx.is_name(e, "round_number") else None, no_inline=["round_number"])
             g = simplify(("or", [N.conj(astx.path_condition(q.node, r, pm)) for r in raises]))
             first_use = min((n.lineno for n in astx.walk_own(q.node)
                              if isinstance(n, ast.Name) and n.id == "round_number" and isinstance(n.ctx, ast.Load)
@@ -269,7 +270,7 @@ def r4_index_guards(ctx):
             # normalisation by modulo
             mods = [n for n in astx.walk_own(q.node) if isinstance(n, ast.Assign) and astx.is_name(n.targets[0], "round_number")
                     and isinstance(n.value, ast.BinOp) and isinstance(n.value.op, ast.Mod)
-                    and astx.is_name(n.value.left, "round_number") and astx.u(n.value.right) == "len(self.election_states)"]
+                    and astx.is_name(n.value.left, "round_number") and N.key(n.value.right) == "len(self.election_states)"]
             okm = bool(mods) and all(r.lineno < mods[0].lineno for r in raises)
             if okg and okm:
                 guarded_methods.add(q.qualname)
